@@ -113,6 +113,30 @@ def gen_cases(rng, tier, prop):
             other = rng.choice(progs)
             cases.append({"pattern": derived[0].pattern, "code": other, "origin": origin + ":cross",
                           "setup": "code", "api": "find_matches", "spelling": "plain"})
+    # programs with DECOY statements (several statements that match a pattern statement shallowly and bind its
+    # placeholder differently), patterns that keep a subsequence of a body: the matcher has to carry several
+    # partial matches with different bindings through the sibling-index bookkeeping of map_merge
+    dgen = cc.DecoyGen(rng)
+    n_decoy = {"quick": 45, "thorough": 900}[tier]
+    for idx in range(n_decoy):
+        try:
+            code = dgen.program()
+            tree = ast.parse(code)
+        except SyntaxError:
+            continue
+        setup = cc.SETUPS[idx % 3] if idx % 2 else "code"
+        for fn in (cc.derive_decoy, cc.derive_decoy, cc.derive_focus, cc.derive):
+            d = fn(rng, code, tree)
+            if d is not None:
+                cases.append({"pattern": d.pattern, "code": code, "origin": "decoy:derived", "setup": setup,
+                              "api": "node" if rng.random() < 0.1 else "find_matches", "spelling": "plain",
+                              "derived": d})
+    # ... and, exhaustively, EVERY interleaving of the instances of a small template
+    wraps = ("{B}", "def main():\n{I}", "{B}", "for i in r:\n    z = 1\nelse:\n{I}", "{B}", "if c:\n{I}",
+             "try:\n    z = 1\nfinally:\n{I}", "class K:\n{I}", "while c:\n{I}")
+    for code, d in cc.decoy_scope(rng, {"quick": 4, "thorough": 60}[tier], wraps=wraps):
+        cases.append({"pattern": d.pattern, "code": code, "origin": "decoy:arrangement", "setup": "code",
+                      "api": "find_matches", "spelling": "plain", "derived": d})
     if tier == "thorough":
         cases.extend(small_scope_cases())
     return cases
@@ -121,9 +145,22 @@ def gen_cases(rng, tier, prop):
 STATE = {}
 
 
-def sub_cases(rng, c, r):
+def _rename_exps(pattern, mapping):
+    return re.sub(r"__e\d+__", lambda m: mapping.get(m.group(0), m.group(0)), pattern)
+
+
+def sub_cases(rng, c, r, counts=None):
     """matches within matches: search inside the subtree bound to an __e__ placeholder of a first-level match,
-    with and without the parent's bindings (CaitNode.find_matches(..., use_previous=...))."""
+    with and without the parent's bindings (CaitNode.find_matches(..., use_previous=...)), and over the whole
+    program with the parent's AstMap inherited (cait_api.find_matches(..., use_previous=parent)).
+
+    The sub-patterns are derived from the bound subtree itself by C11's steps.  Their placeholders are named in
+    two ways: with FRESH names, and REUSING names the inherited match has already bound - an __expr__ name of the
+    parent for a different sub-expression (as pedal's own test_use_previous does), a _var_ name of the parent for
+    the same identifier."""
+    def count(k):
+        if counts is not None:
+            counts[k] = counts.get(k, 0) + 1
     d = c.get("derived")
     out = []
     if d is None or not d.exps or not r.raw or r.api != "find_matches":
@@ -133,34 +170,177 @@ def sub_cases(rng, c, r):
     if key not in cm["exps"]:
         return out
     anchor = cm["exps"][key]
+    anchor_node = cc.node_at(r.sroot, anchor)
     try:
-        src = ast.unparse(cc.node_at(r.sroot, anchor).astNode)     # what the first match actually bound
-        ast.parse(src)
+        src = ast.unparse(anchor_node.astNode)     # what the first match actually bound
+        sub_tree = ast.parse(src)
     except Exception:
         return out
-    # (pattern, what C11 expects of it inside the subtree: None | {} | {placeholder: identifier})
-    pats = [(src, {})]
-    try:
-        sub_tree = ast.parse(src)
-        dd = cc.derive(rng, src, sub_tree, whole=True, max_steps=2)
-        # a _x_ the sub-pattern introduces must not be one the parent already uses for something else
-        if dd is not None and not (set(dd.vars) & set(cc.pattern_names(r.ptree))):
-            # (its __eN__ names are renamed: a name shared with the parent would inherit the parent's binding)
-            pats.append((dd.pattern.replace("__e", "__s"), dict(dd.vars)))
-    except SyntaxError:
-        pass
+    # (pattern, what C11 expects of it inside the subtree: None | {"vars": {placeholder: identifier},
+    #                                                              "exps": {placeholder: [acceptable paths]}})
+    pats = [(src, {"vars": {}, "exps": {}})]
+    # the text of the bound subtree must denote that very subtree (a Store / Del context does not survive)
+    top = sub_tree.body[0] if len(sub_tree.body) == 1 else None
+    inner = top.value if isinstance(top, ast.Expr) and isinstance(anchor_node.astNode, ast.expr) else top
+    faithful = inner is not None and ast.dump(inner) == ast.dump(anchor_node.astNode)
+    if not faithful:
+        count("skipped:sub-source-not-faithful")
+        pats = []
+    parent_names = cc.pattern_names(r.ptree)
+    parent_bound = {k: sorted({i for (_, kk), lst in cm["binds"].items() if kk == k for (i, _) in lst})
+                    for k in {kk for (_, kk) in cm["binds"]}}
+    if faithful:
+        prefix = cc.ast_index(sub_tree)[id(inner)]
+        for forced in (False, True):
+            if forced:
+                # at least one sub-expression of the bound subtree becomes a NAMED placeholder
+                dv = cc._Deriver(rng, src, sub_tree)
+                dv.step_wild(named=True)
+                for _ in range(rng.randint(0, 2)):
+                    rng.choice([dv.step_wild, dv.step_var])()
+                dd = dv.finish()
+            else:
+                dd = cc.derive(rng, src, sub_tree, whole=True, max_steps=3)
+            if dd is None or not dd.steps:
+                continue
+            # a _x_ of the sub-pattern that the parent pattern also uses: fine if the parent's first match bound it
+            # to the identifier it replaces here (then the inherited binding agrees), otherwise no expectation
+            shared = set(dd.vars) & set(parent_names)
+            agrees = all(parent_bound.get(k) == [dd.vars[k]] for k in shared)
+
+            def rel(path):
+                return tuple(path[len(prefix):]) if path is not None and tuple(path[:len(prefix)]) == tuple(prefix) else None
+            exps_rel = {k: [x for x in (rel(v[0]), rel(v[2])) if x is not None] for k, v in dd.exps.items()}
+            if any(not v for v in exps_rel.values()):
+                continue
+            keys = sorted(dd.exps)
+            fresh = {k: "__s%d__" % i for i, k in enumerate(keys)}
+            pkeys = sorted(cm["exps"])
+            reuse = {k: (pkeys[i] if i < len(pkeys) else "__s%d__" % i) for i, k in enumerate(keys)}
+            for naming, mp in (("fresh", fresh), ("reuse", reuse)):
+                if naming == "reuse" and (not keys or mp == fresh):
+                    continue
+                pats.append((_rename_exps(dd.pattern, mp),
+                             {"vars": dict(dd.vars), "exps": {mp[k]: v for k, v in exps_rel.items()},
+                              "needs_agreement": bool(shared), "agrees": agrees, "naming": naming}))
     for k in sorted(d.vars)[:1]:
         pats.append((k, None))                       # a placeholder the parent has already bound
         pats.append(("%s + ___" % k, None))
     pats.append(("_zz_", None))
     for pat, expect in pats:
-        for prev in (False, True):
+        routes = [("sub", False), ("sub", True)]
+        if expect is not None and rng.random() < 0.5:
+            routes.append(("prev", True))
+        for api, prev in routes:
+            exp2 = expect
+            if expect is not None:
+                if expect.get("needs_agreement") and prev and not expect.get("agrees"):
+                    exp2 = None                  # the inherited binding differs: nothing is demanded
+                    count("sub:inherited-var-differs")
+                else:
+                    where = anchor if api == "prev" else ()
+                    exp2 = {"vars": expect["vars"],
+                            "exps": {k: [tuple(where) + tuple(x) for x in v] for k, v in expect["exps"].items()},
+                            "naming": expect.get("naming", "plain")}
             out.append(({"pattern": pat, "code": c["code"], "origin": c["origin"].split(":")[0] + ":sub",
-                         "setup": c["setup"], "api": "sub", "spelling": c.get("spelling", "plain"),
+                         "setup": c["setup"], "api": api, "spelling": c.get("spelling", "plain"),
                          "use_previous": prev, "parent_pattern": c["pattern"], "parent_key": key,
-                         "sub_expect": expect},
-                        dict(api="sub", anchor=anchor, parent=parent, key=key, use_previous=prev)))
+                         "sub_expect": exp2},
+                        dict(api=api, anchor=anchor, parent=parent, key=key, use_previous=prev)))
     return out
+
+
+def corpus_sub_expect(expect, run):
+    """SUB_CORPUS expectation -> {"vars", "exps"}: a value of an __e__ key is the source text of the node it must
+    be bound to (any node of the searched tree with that text)."""
+    if expect is None:
+        return None
+    exps = {}
+    index = cc.index_of(run.snode)
+    texts = {}
+    for k, v in expect.items():
+        if k.startswith("__"):
+            if not texts:
+                def walk(n):
+                    try:
+                        texts.setdefault(ast.unparse(n.astNode), []).append(index[id(n)])
+                    except Exception:
+                        pass
+                    for ch in n.children:
+                        walk(ch)
+                walk(run.snode)
+            exps[k] = texts.get(v, [])
+    return {"vars": {k: v for k, v in expect.items() if not k.startswith("__")}, "exps": exps, "naming": "corpus"}
+
+
+def commutative_left_reuse(pattern, keys):
+    """the sub-pattern's root (after Module / Expr trimming) is a + or * whose LEFT operand contains every __e__
+    name of `keys`"""
+    try:
+        t = ast.parse(pattern)
+    except SyntaxError:
+        return False
+    n = t
+    while isinstance(n, (ast.Module, ast.Expr)):
+        kids = n.body if isinstance(n, ast.Module) else [n.value]
+        if len(kids) != 1:
+            return False
+        n = kids[0]
+    if not (isinstance(n, ast.BinOp) and isinstance(n.op, (ast.Add, ast.Mult))):
+        return False
+    left = {x.id for x in ast.walk(n.left) if isinstance(x, ast.Name)}
+    return bool(keys) and all(k in left for k in keys)
+
+
+def sub_verdict(expect, r):
+    """None if the sub-search behaves as C11 demands, else (reason, names of the wrongly bound __e__ keys)."""
+    if r.exc is not None:
+        return "raises " + r.exc, []
+    if not r.matches:
+        return "no match", []
+    wrong = set()
+    for m in r.matches:
+        ok = True
+        for k, x in expect.get("vars", {}).items():
+            ids = [i for (t, kk), lst in m["binds"].items() if kk == k for (i, _) in lst]
+            if not ids or any(i != x for i in ids):
+                ok = False
+        bad_keys = [k for k, paths in expect.get("exps", {}).items() if m["exps"].get(k) not in [tuple(p) for p in paths]]
+        if ok and not bad_keys:
+            return None
+        if ok:
+            wrong.update(bad_keys)
+    return "no match with the expected bindings", sorted(wrong)
+
+
+UNPARSABLE = ["def (", "x = ", "if True:\nprint(1)\n", "print('a", "1 +* 2", "x = 1\n  y = 2\n", "\u00a0x = 1",
+              "for i in y:\n\tprint(i)\n        print(i)\n", "(", "x = 08"]
+
+
+def after_bad_parse(rng, c):
+    """fresh report: the derived pattern on the program, then CAIT is given an unparsable text on the same report,
+    then the same question again.  Returns (case, unparsable text, how it was given, first run, second run)."""
+    prog = cc.Program(c["code"], c["setup"])
+    first = cc.RealRun(c["pattern"], prog)
+    bad = rng.choice(UNPARSABLE)
+    try:
+        ast.parse(bad)
+        bad = "def ("
+    except SyntaxError:
+        pass
+    except Exception:
+        bad = "def ("
+    via = rng.choice(["find_matches", "find_match", "parse_program"])
+    from pedal.cait import cait_api
+    try:
+        if via == "parse_program":
+            cait_api.parse_program(bad, report=prog.report)
+        else:
+            getattr(cait_api, via)(c["pattern"], student_code=bad, report=prog.report)
+    except Exception as e:      # not C11's business (C04-like); the follow-up question still is
+        via += " (raised %s)" % type(e).__name__
+    second = cc.RealRun(c["pattern"], prog)
+    return c, bad, via, first, second
 
 
 def correspond(prop):
@@ -173,6 +353,7 @@ def correspond(prop):
         cases = gen_cases(rng, tier, prop)
         runs = []
         programs = {}
+        stale = STATE["stale"] = []
 
         def do(c, **kw):
             try:
@@ -198,11 +379,13 @@ def correspond(prop):
             pr = do(pc)
             if pr is None or pr.exc is not None or not pr.matches or key not in pr.matches[0]["exps"]:
                 continue
-            for prev in (False, True):
-                do({"pattern": spat, "code": code, "origin": "corpus:sub", "setup": "code", "api": "sub",
-                    "spelling": "plain", "use_previous": prev, "parent_pattern": ppat, "parent_key": key,
-                    "sub_expect": expect},
-                   api="sub", anchor=pr.matches[0]["exps"][key], parent=pr.raw[0], key=key, use_previous=prev)
+            for api, prev in (("sub", False), ("sub", True), ("prev", True)):
+                sc = {"pattern": spat, "code": code, "origin": "corpus:sub", "setup": "code", "api": api,
+                      "spelling": "plain", "use_previous": prev, "parent_pattern": ppat, "parent_key": key,
+                      "sub_expect": None}
+                sr = do(sc, api=api, anchor=pr.matches[0]["exps"][key], parent=pr.raw[0], key=key, use_previous=prev)
+                if sr is not None:
+                    sc["sub_expect"] = corpus_sub_expect(expect, sr)
         for c in cases:
             r = do(c)
             if r is None:
@@ -215,12 +398,18 @@ def correspond(prop):
                     res.disagreements.append({"case": {"pattern": c["pattern"], "code": c["code"]},
                                               "real": "second call differs", "model": "-", "fields": ["repeat"]})
             if rng.random() < (0.5 if tier == "quick" else 0.3):
-                for sc, kw in sub_cases(rng, c, r):
+                for sc, kw in sub_cases(rng, c, r, res.distribution):
                     do(sc, **kw)
+            if (c.get("derived") is not None and r.exc is None and r.matches and r.api == "find_matches"
+                    and rng.random() < (0.12 if tier == "quick" else 0.05)):
+                # multi-step: the grader looks at some OTHER, unparsable text in between (same report), then asks
+                # the same question about the valid program again
+                stale.append(after_bad_parse(rng, c))
+                res.count("after-unparsable-text")
         # C11's last sentence: generalise patterns that MATCH (whether or not they were taken from the program)
         p_mono = 0.5 if tier == "quick" else 0.25
         for c, r in list(runs):
-            if r.exc is not None or not r.matches or r.api == "sub" or c.get("mono_parent") is not None:
+            if r.exc is not None or not r.matches or r.api in ("sub", "prev") or c.get("mono_parent") is not None:
                 continue
             gens = list(c.get("generalisations", []))
             if not gens and rng.random() < p_mono:
@@ -240,7 +429,7 @@ def correspond(prop):
         gen_cases_ = []
         for c, r in runs:
             d = c.get("derived")
-            if d is None or r.api == "sub":
+            if d is None or r.api in ("sub", "prev"):
                 continue
             al = d.align
             if al is None and d.base == "corpus" and r.exc is None and r.matches:
@@ -398,10 +587,10 @@ def embed_verdicts(driver, run):
 def rerun(case):
     """re-execute a stored case dict on the real code"""
     prog = cc.Program(case["code"], case.get("setup", "code"))
-    if case.get("api") == "sub":
+    if case.get("api") in ("sub", "prev"):
         parent = cc.RealRun(case["parent_pattern"], prog)
         key = case["parent_key"]
-        return cc.RealRun(case["pattern"], prog, api="sub", anchor=parent.matches[0]["exps"][key],
+        return cc.RealRun(case["pattern"], prog, api=case["api"], anchor=parent.matches[0]["exps"][key],
                           parent=parent.raw[0], key=key, use_previous=case.get("use_previous", False))
     return cc.RealRun(case["pattern"], prog, api=case.get("api", "find_matches"))
 
@@ -433,7 +622,7 @@ def search_c10(rng, tier, broken, corr):
             bad.setdefault((c["pattern"], c["code"], r.api, r.use_previous), (c, r, a))
     for _, (c, r, a) in list(bad.items())[:3]:
         case = {k: c[k] for k in CASE_KEYS if k in c}
-        if r.api != "sub":
+        if r.api not in ("sub", "prev"):
             def still(p, s):
                 rr = rerun(dict(case, pattern=p, code=s))
                 return any(not v for v in embed_verdicts(driver, rr))
@@ -446,6 +635,11 @@ def search_c10(rng, tier, broken, corr):
         for k in ("api", "use_previous", "parent_pattern"):
             if case.get(k) not in (None, "find_matches", False):
                 sig[k] = case[k]
+        if rr.use_previous and rr.parent is not None:
+            reused = sorted(k for k in cc.pattern_names(rr.ptree) if k.startswith("__") and k in r.parent.exp_table)
+            if commutative_left_reuse(case["pattern"], reused):
+                # one root cause whatever the program: a stable signature
+                sig = {"oracle": "embedding", "cause": "inherited-binding-overrides-left-operand-of-commutative-root"}
         failures.append(Failure(sig, "%s(%r) on %r returns a match that is not an embedding" % (
             "CaitNode.find_matches" if rr.api != "find_matches" else "find_matches", case["pattern"], case["code"]),
             dict(case, match_index=idx, original={"pattern": c["pattern"], "code": c["code"]},
@@ -471,6 +665,8 @@ def search_c11(rng, tier, broken, corr):
             "theorem_domain": {}}
     failures = []
     bad = []
+    sub_bad = []
+    stale_bad = []
     for c, r in runs:
         d = c.get("derived")
         if d is None:
@@ -490,28 +686,52 @@ def search_c11(rng, tier, broken, corr):
         elif len(info["samples"]) < 3 and d.steps:
             info["samples"].append({"pattern": d.pattern, "code": d.code[:120], "steps": d.steps,
                                     "vars": d.vars, "exps": {k: v[1] for k, v in d.exps.items()}})
-    # matches within matches: the bound expression (generalised) must be found inside its own subtree
+    # matches within matches: the bound expression (generalised) must be found inside its own subtree, every
+    # placeholder bound to what it replaced - also when it reuses a name the inherited match had bound
     for c, r in runs:
         expect = c.get("sub_expect")
         if expect is None:
             continue
         info["evaluations"] += 1
         info["sub_patterns"] = info.get("sub_patterns", 0) + 1
-        why = None
-        if r.exc is not None:
-            why = "raises " + r.exc
-        elif not r.matches:
-            why = "no match"
-        elif expect and not any(all(k in [kk for (_, kk) in m["binds"]] and
-                                    all(i == x for (t, kk), lst in m["binds"].items() if kk == k for (i, _) in lst)
-                                    for k, x in expect.items()) for m in r.matches):
-            why = "no match with the expected bindings"
-        if why:
-            sig = {"oracle": "sub-pattern", "why": why.split(" ")[0], "use_previous": bool(c.get("use_previous"))}
-            failures.append(Failure(sig, "CaitNode.find_matches(%r, use_previous=%s) inside the subtree bound to %s of a match "
-                                         "of %r: %s" % (c["pattern"], c.get("use_previous"), c["parent_key"],
-                                                        c["parent_pattern"], why),
-                                    {k: c[k] for k in CASE_KEYS if k in c}))
+        tag = "sub:%s%s:%s" % (r.api, ":use_previous" if r.use_previous else "", expect.get("naming", "plain"))
+        info.setdefault("sub_routes", {})[tag] = info.setdefault("sub_routes", {}).get(tag, 0) + 1
+        verdict = sub_verdict(expect, r)
+        if verdict is None:
+            continue
+        why, wrong = verdict
+        sig = {"oracle": "sub-pattern", "why": why.split(" ")[0], "use_previous": bool(c.get("use_previous"))}
+        if wrong:
+            sig["wrong"] = "__expr__ placeholder not bound to the sub-expression it replaced"
+            if r.use_previous and commutative_left_reuse(c["pattern"], wrong):
+                sig["cause"] = "inherited-binding-overrides-left-operand-of-commutative-root"
+        what = ("%s(%r%s) %s of a match of %r: %s%s" % (
+            "find_matches" if r.api == "prev" else "CaitNode.find_matches", c["pattern"],
+            ", use_previous=<that match>" if r.api == "prev" else ", use_previous=%s" % c.get("use_previous"),
+            "over the program" if r.api == "prev" else "inside the subtree bound to %s" % c["parent_key"],
+            c["parent_pattern"], why, " (%s)" % ", ".join(wrong) if wrong else ""))
+        sub_bad.append((len(c["code"]) + len(c["pattern"]), Failure(sig, what, {k: c[k] for k in CASE_KEYS if k in c})))
+    sub_bad.sort(key=lambda x: x[0])
+    failures.extend(f for _, f in sub_bad)
+    # the same derived pattern again after CAIT saw an unparsable text on the same report
+    for c, badsrc, via, first, second in STATE.get("stale", []):
+        d = c["derived"]
+        info["evaluations"] += 1
+        info["after_unparsable_text"] = info.get("after_unparsable_text", 0) + 1
+        if cc.c11_verdict(d, first) is not None:
+            continue                                   # reported by the plain derived-pattern oracle
+        why = cc.c11_verdict(d, second)
+        if why is None:
+            continue
+        sig = {"oracle": "derived-pattern-after-unparsable-text",
+               "why": why.split(" ")[0] + (" " + why.split(" ")[1] if why.startswith("raises") else "")}
+        stale_bad.append((len(c["code"]) + len(c["pattern"]), Failure(
+            sig, "pattern %r derived from the program matches; after %s(%r) on the same report the same find_matches "
+                 "call gives: %s" % (d.pattern, via, badsrc, why),
+            {"pattern": d.pattern, "code": d.code, "setup": c["setup"], "api": "find_matches",
+             "between": {"call": via, "student_code": badsrc}, "why": why})))
+    stale_bad.sort(key=lambda x: x[0])
+    failures.extend(f for _, f in stale_bad[:1])
     # generalising a MATCHING pattern must not lose the match
     for c, r in runs:
         parent = c.get("mono_parent")
@@ -532,6 +752,7 @@ def search_c11(rng, tier, broken, corr):
                                 {"pattern": c["pattern"], "code": c["code"], "setup": c["setup"], "api": "find_matches",
                                  "generalisation_of": parent, "why": why}))
     seen = set()
+    bad.sort(key=lambda x: len(x[1].code) + len(x[1].pattern))      # the smallest witness of each signature
     for c, d, why in bad:
         kinds = sorted({s.split(":")[0] for s in d.steps})
         sig = {"oracle": "derived-pattern", "why": why.split(" ")[0] + (" " + why.split(" ")[1] if why.startswith("raises") else ""),
